@@ -214,6 +214,28 @@ theorem C03_command_cell (f : BalanceFlags) (v : Commodity) (hf : PlainFlags f v
   rw [stepBound_daysOf] at m3
   exact ⟨mD, mF, m1, m2, m3⟩
 
+/-- **end to end, no hypothesis on the journal**: for every journal the loader (`Driver.C04.load`: the path of all generated
+journals, with or without `@accrue`) accepts, the cell statement holds (postings only ever receive a value from the
+Valuate stage: `LedgerCommand.load_go_zero`) -/
+theorem C03_loaded_journal_cell (raw : List Driver.RawDirective) (ids : List (Nat × Directive))
+    (hload : Driver.C04.load raw = .ok ids) (f : BalanceFlags) (v : Commodity) (hf : PlainFlags f v)
+    (es : List Entry) (part : Partition) (h : BalanceCmd.entries f (ids.map (·.2)) = .ok (es, part))
+    (a : Account) (hal : a.isAL = true) (hmem : ∃ e ∈ es, e.account = a) :
+    ∃ pre post cells,
+      (BalanceReport.table (BalanceCmd.renderCfg f part) es).rows =
+        pre ++ [Cell.text (a.segments.getLast?.getD "").toList .left ((2 * (a.segments.length - 1) : Nat) : Int) :: cells] ++ post ∧
+      cells.length = part.endDates.length ∧
+      ∀ (k : Nat) (hk : k < part.endDates.length) (hk' : k < cells.length),
+        ∃ mD mF, Spec.mtm v (Builder.ofList (ids.map (·.2))).build a part.endDates[k] = some mD ∧
+          Spec.mtm v (Builder.ofList (ids.map (·.2))).build a (part.span.start - 1) = some mF ∧
+          (cellVal cells[k] - (mD - mF)).abs ≤
+            (Spec.stepBound v (Builder.ofList (ids.map (·.2))).build a (part.span.start - 1) part.endDates[k] : Rat) / (10 : Rat) ^ 8 := by
+  apply C03_command_cell f v hf _ _ es part h a hal hmem
+  intro t ht
+  obtain ⟨p, hp, hpt⟩ := List.mem_map.mp ht
+  have : IdsZero ids := load_go_zero raw 0 [] ids (by intro p hp; cases hp) hload
+  exact this p hp t hpt
+
 /-- **the property's sentence**: if the account holds nothing on the eve of the window (in particular without `--from`,
 or with `--from` before the first booking on the account), every cell of its row is the exact mark-to-market value
 `Spec.mtm` of its column date up to `Spec.stepBound` units of the 8th decimal -/
